@@ -83,7 +83,39 @@ func (*c13) Impl(c Case) []string {
 	return out
 }
 
+// c13Nested: build Sub(r, "a/b/c") as Sub(Sub(Sub(r, "a"), "b"), "c"). A view of a view is the
+// view of the joined prefix; stateless lines are run both ways and must agree.
+var c13Nested bool
+
+func c13MkSub(r ociregistry.Interface, prefix string) ociregistry.Interface {
+	if !c13Nested {
+		return ocifilter.Sub(r, prefix)
+	}
+	for _, p := range strings.Split(prefix, "/") {
+		r = ocifilter.Sub(r, p)
+	}
+	return r
+}
+
 func c13Line(st *c13State, l string) string {
+	out := c13Line1(st, l)
+	t := strings.Split(l, " ")
+	if len(t) > 2 && (t[1] == "call" || t[1] == "list") && out != "bad-op" {
+		if prefix, ok := untok(t[2]); ok && strings.Contains(prefix, "/") && !strings.Contains(prefix, "//") && !strings.HasPrefix(prefix, "/") && !strings.HasSuffix(prefix, "/") {
+			c13Nested = true
+			nested := func() string {
+				defer func() { c13Nested = false }()
+				return c13Line1(st, l)
+			}()
+			if nested != out {
+				return "nested-differs flat{" + out + "} nested{" + nested + "}"
+			}
+		}
+	}
+	return out
+}
+
+func c13Line1(st *c13State, l string) string {
 	t := strings.Split(l, " ")
 	if len(t) < 2 || t[0] != "sub" {
 		return "bad-op"
@@ -98,7 +130,7 @@ func c13Line(st *c13State, l string) string {
 			return "bad-op"
 		}
 		b := newRecBackend()
-		reg := ocifilter.Sub(b.Funcs, prefix)
+		reg := c13MkSub(b.Funcs, prefix)
 		m, args, ok := wrapperArgs(reg, t[3], ctx, n1, n2)
 		if !ok {
 			return "bad-op"
@@ -168,7 +200,7 @@ func c13Line(st *c13State, l string) string {
 			}
 			return evs
 		}
-		reg := ocifilter.Sub(b.Funcs, prefix)
+		reg := c13MkSub(b.Funcs, prefix)
 		var got []string
 		n := 0
 		reg.Repositories(context.Background(), start)(func(name string, err error) bool {
@@ -431,6 +463,10 @@ func (*c13) Oracle(c Case, impl []string) []Failure {
 		t := strings.Split(l, " ")
 		got := impl[i]
 		if c.Tag == "malformed" || len(t) < 2 {
+			continue
+		}
+		if strings.HasPrefix(got, "nested-differs ") {
+			fail(i, "sub-nested-differs", "sub_of_sub_is_sub_of_joined_prefix", "Sub(Sub(r, a), b) behaves as Sub(r, a/b)")
 			continue
 		}
 		switch t[1] {
